@@ -93,6 +93,12 @@ func (ls *LinesearchMethod) Iterate(loc *Location) (Operation, error) {
 	if err != nil {
 		return ls.error(err)
 	}
+	if math.IsNaN(step) || math.IsInf(step, 0) {
+		// The Linesearcher has been fed NaN or overflowing values and can
+		// no longer produce a step: evaluating at a NaN location would
+		// only produce more of them, for ever.
+		return ls.error(ErrLinesearcherFailure)
+	}
 
 	switch op {
 	case MajorIteration:
